@@ -501,6 +501,7 @@ def execute(case):
         cond = expr_build(e, objs)
         # rebuilt primitives: type(c)(**state(c)[doc])
         rebuilt = []
+        rebuilt2 = []
         for s, o in zip(specs, objs):
             rc = case["rclock"]
             clock.t = list(rc) if rc is not None else (list(s[3]) if s[0] == "timelimits" else [0.0, 0.0, 0.0])
@@ -509,6 +510,22 @@ def execute(case):
                 rebuilt.append(T.type(o)(**st[o.__doc__]))
             except Exception as exc:     # noqa
                 rebuilt.append(exc)
+                rebuilt2.append(exc)
+                continue
+            # a caller deriving a VARIANT from the reported settings edits the returned dict in place (this is what
+            # mask.update_mask / tools.no_mask do); the condition's own reported state must not follow: rebuild again
+            try:
+                kw = st[o.__doc__]
+                for key in list(kw):
+                    if isinstance(kw[key], (int, float)) and not isinstance(kw[key], bool):
+                        kw[key] = kw[key] + 1
+                    elif kw[key] is None:
+                        kw[key] = 1
+                if len(kw) > 1:
+                    kw.pop(sorted(kw)[0])
+                rebuilt2.append(T.type(o)(**T.state(o)[o.__doc__]))
+            except Exception as exc:     # noqa
+                rebuilt2.append(exc)
         clock.t = list(v["clock"])
         solver = make_solver(v)
         obs["built"] = struct_str(cond, objs)
@@ -517,6 +534,9 @@ def execute(case):
         obs["rb"] = [("raise:" + type(rebuilt[i]).__name__) if isinstance(rebuilt[i], Exception)
                      else pout(call(rebuilt[i], solver)) for i in order]
         obs["rbdoc"] = [(not isinstance(rebuilt[i], Exception)) and rebuilt[i].__doc__ == objs[i].__doc__ for i in order]
+        obs["rb2"] = [("raise:" + type(rebuilt2[i]).__name__) if isinstance(rebuilt2[i], Exception)
+                      else pout(call(rebuilt2[i], solver)) for i in order]
+        obs["rb2doc"] = [(not isinstance(rebuilt2[i], Exception)) and rebuilt2[i].__doc__ == objs[i].__doc__ for i in order]
         rb = call(cond, solver)
         obs["b"] = ("err-" + rb[1]) if rb[0] == "err" else bool(rb[1])
         obs["btype"] = type(rb[1]).__name__ if rb[0] == "ok" else None
@@ -812,6 +832,8 @@ def monitor(case):
             continue
         if obs["rb"][pos] != obs["prims"][pos] or not obs["rbdoc"][pos]:
             out.append(("rebuild/%s" % specs[i][0], "type(c)(**state(c)[doc]) gives %s, the original %s (%r)" % (obs["rb"][pos], obs["prims"][pos], specs[i])))
+        elif obs["rb2"][pos] != obs["prims"][pos] or not obs["rb2doc"][pos]:
+            out.append(("rebuild-after-variant/%s" % specs[i][0], "after a caller edited the dict returned by state(c), state(c) reports the edited settings: type(c)(**state(c)[doc]) gives %s (same doc: %s), the original %s (%r)" % (obs["rb2"][pos], obs["rb2doc"][pos], obs["prims"][pos], specs[i])))
     if obs["state_keys_ok"] is not True:
         out.append(("state/keys", "state(condition) does not report exactly the primitives' docs: %r" % (obs["state_keys_ok"],)))
     if raised or isinstance(obs["b"], str):
